@@ -21,6 +21,9 @@ func All() map[string]orch.PropertySpec {
 		"C01": {ID: "C01", Level: "model_checking", Assumptions: trusted,
 			Rule:  "cases are the attacker documents TLC enumerates from spec/Forgery.tla (root signature state x root ID x up to two kids with content, signature state, placement, encryption, ID collision) under signature checking and skip mode; each is made concrete (real XML, RSA signatures, XML-Enc, optional DEFLATE) and replayed; distinct = distinct abstract (cfg,input); every one is non-trivial (it reaches signature processing)",
 			Parts: []orch.Part{{Family: fam.Forgery{}, Monitors: []string{"C01"}}}},
+		"C02": {ID: "C02", Level: "model_checking", Assumptions: trusted,
+			Rule: "cases are all combinations TLC enumerates from spec/Trust.tla: message kind (SSO root-signed, SSO assertion-signed, LogoutRequest, LogoutResponse) x signing key (trusted A, trusted B, untrusted) x certificate shown (A, B, untrusted, none) x store composition (0..2 certificates) x SP clock relative to the staggered certificate windows x altered content, plus the root-signature states of spec/Forgery.tla; every case is replayed; non-trivial = a signature is present or the store is non-empty",
+			Parts: []orch.Part{{Family: fam.Trust{}, Monitors: []string{"C02"}}, {Family: fam.Forgery{}, Monitors: []string{"C02"}}}},
 	}
 }
 
